@@ -123,9 +123,15 @@ def span(t, N):
     return Or(L == 0, zbool(t.fields['pos_fix']), p + L <= zint(N))
 
 
+import os as _os
+FOCUS = _os.environ.get('PYVC_FOCUS', 'all')   # 'range': drop C02 clauses
+
+
 def exact(t, src):
     """a non-fixed token of more than one character is a slice of the
     source at its own position (C02)"""
+    if FOCUS == 'range':
+        return True
     src = lift_str(src)
     txt = lift_str(t.fields['txt'])
     p = zint(t.fields['pos'])
@@ -136,6 +142,8 @@ def exact(t, src):
 
 def exact_full(t, src):
     """the token text is the source slice at its position (any length)"""
+    if FOCUS == 'range':
+        return True
     txt = lift_str(t.fields['txt'])
     p = zint(t.fields['pos'])
     return forall(0, txt.ln, lambda k: txt.at(k) == src.at(p + k))
